@@ -132,6 +132,12 @@ context's error when no error is recorded and the context is done -/
 def Run.seenLast (r : Run) : Outcome :=
   if r.last.err.isNone && r.ext.isSome then ⟨r.last.val, some Err.canceled⟩ else r.last
 
+/-- what a listener that is handed `CopyWithResult(result)` reads: the result's value and error, except that `LastError()` reports
+the context's error when the result carries none and the context of the copy is done (cancelled from outside, or the copy
+belongs to a Timeout scope that has fired) -/
+def Run.seenBy (r : Run) (o : Outcome) : Outcome :=
+  if o.err.isNone && (r.ext.isSome || r.cancelled) then ⟨o.val, some Err.canceled⟩ else o
+
 /-- the scripted cancellation fires at the k-th occurrence of its event (the harness cancels from inside that callback) -/
 def Run.trigger (r : Run) (name : String) : Run :=
   match r.cancelAt with
@@ -319,11 +325,11 @@ def applyPolicy (fuel pos : Nat) : Policy → Layer → Layer
         | none => none
         | some (res, r) =>
           if isFailure h res.outcome then
-            let r := r.emit "cb.onFailure" pos
+            let r := r.emitSeen "cb.onFailure" pos (r.seenBy res.outcome)
             let r := drainBreaker (updBreaker r id (fun c b => Breaker.record c b r.w.now false true)) id pos
             some (res.withFailure, r)
           else
-            let r := r.emit "cb.onSuccess" pos
+            let r := r.emitSeen "cb.onSuccess" pos (r.seenBy res.outcome)
             let r := drainBreaker (updBreaker r id (fun c b => Breaker.record c b r.w.now true false)) id pos
             some (res.withDone true true, r)
   | .bulkhead id, inner => fun r =>
@@ -350,7 +356,7 @@ def applyPolicy (fuel pos : Nat) : Policy → Layer → Layer
       | none => none
       | some (res, r) =>
         if isFailure h res.outcome then
-          let r := r.emit "fb.onFailure" pos
+          let r := r.emitSeen "fb.onFailure" pos (r.seenBy res.outcome)
           if r.isCanc then some (r.cancelRes, r) else
           let fo : Outcome := match k with | .value v => ⟨v, none⟩ | .error e => ⟨0, some e⟩
           -- the fallback function sees the failed outcome as the execution's last result
@@ -358,7 +364,7 @@ def applyPolicy (fuel pos : Nat) : Policy → Layer → Layer
           let r := r.emit "fb.onFallbackExecuted" pos
           let ok := !isFailure h fo
           some (⟨fo.val, fo.err, true, ok, ok⟩, r)
-        else some (res.withDone true true, r.emit "fb.onSuccess" pos)
+        else some (res.withDone true true, r.emitSeen "fb.onSuccess" pos (r.seenBy res.outcome))
   | .timeout, inner => fun r =>
       -- the Timeout runs what is inside it on a cancellable copy of the execution: cancel scope and last outcome are local
       let saved := (r.inTimeout, r.cancelled, r.timeoutPos, r.last)
